@@ -21,8 +21,7 @@
    [estep]: it may allocate, take and drop its own references, clear and fill owner slots
    (changed() = clear every slot and drop what the freed dictionaries held; a nested or
    concurrent lookup = alloc / set slot / add item / inc / dec), add and delete dictionary items.
-   It is reference-count correct: it only drops references that exist and are not ours (HVar),
-   and never mutates a tuple.
+   It is reference-count correct: it only drops references that exist and are not ours (HVar).
 
    Tuples: an item borrowed from a tuple (PyTuple_GET_ITEM) is identified with the tuple itself by the
    extractor (tuples are immutable, so the item lives exactly as long as the tuple is kept alive; the
